@@ -353,10 +353,15 @@ def ruleDateDOW(ts: datetime, date: Time, dow: Time) -> Time:
 # and assume the next date+time in the future
 @rule(predicate("isDOM"))
 def ruleLatentDOM(ts: datetime, dom: Time) -> Time:
-    dm = ts + relativedelta(day=dom.day)
-    if dm <= ts:
+    # relativedelta(day=N) silently clips N to the length of the month, so
+    # walk over the first of the month and check that the day exists
+    dm = ts + relativedelta(day=1)
+    if dom.day <= ts.day:
         dm += relativedelta(months=1)
-    return Time(year=dm.year, month=dm.month, day=dm.day)
+    if not _is_valid_date(dm.year, dm.month, dom.day):
+        # this month is too short; the following one never is
+        dm += relativedelta(months=1)
+    return Time(year=dm.year, month=dm.month, day=dom.day)
 
 
 @rule(predicate("isDOW"))
@@ -369,10 +374,15 @@ def ruleLatentDOW(ts: datetime, dow: Time) -> Time:
 
 @rule(predicate("isDOY"))
 def ruleLatentDOY(ts: datetime, doy: Time) -> Time:
-    dm = ts + relativedelta(month=doy.month, day=doy.day)
-    if dm < ts:
-        dm += relativedelta(years=1)
-    return Time(year=dm.year, month=dm.month, day=dm.day)
+    year = ts.year
+    if doy.month < ts.month or (doy.month == ts.month and doy.day < ts.day):
+        year += 1
+    # 29 Feb: the next leap year is at most 8 years away
+    for _ in range(8):
+        if _is_valid_date(year, doy.month, doy.day):
+            break
+        year += 1
+    return Time(year=year, month=doy.month, day=doy.day)
 
 
 @rule(predicate("isPOD"))
